@@ -144,7 +144,13 @@ pub fn drive(c: &Case) -> Result<Outcome, mon::PanicInfo> {
     let tls = c.transport == "tls";
     let reuse_connector = tls && c.nla_seed % 5 == 0;
     // the first server of a reused Connector: same profile and account, its own state
-    let d0 = Duplex::new(c.profile.clone());
+    // ... which, when the client offers both, selects the OTHER security protocol: what the client echoes to the second
+    // server (serverSelectedProtocol) is that server's selection, not the first one's
+    let mut p0 = c.profile.clone();
+    if reuse_connector && c.cfg.nla && (p0.selected_protocol == 1 || p0.selected_protocol == 2) {
+        p0.selected_protocol = 3 - p0.selected_protocol;
+    }
+    let d0 = Duplex::new(p0);
     if reuse_connector {
         let mut nr0 = Rng::new(c.nla_seed ^ 0x5a5a);
         let nla0 = gen::nla_cfg(&mut nr0, &c.cfg);
